@@ -14,7 +14,7 @@
    [patch_original] is the walker before them: it is refuted below, which is what finding C08-left-escape was. *)
 From Coq Require Import List NArith Bool.
 From RopeVerif.Lib Require Import Text.
-From RopeVerif.C08 Require Import Template TemplateProofs Runner Witness WitnessProofs.
+From RopeVerif.C08 Require Import Template TemplateProofs Fragment FragmentProofs Runner Witness WitnessProofs.
 Local Open Scope N_scope.
 
 (* Losslessness: writing the annotated tree back out reproduces the source character for character. *)
@@ -116,3 +116,54 @@ Print Assumptions C08_current_on_refutation_witness.
 Example C08_refutation_witness_is_ropes_run : run_case w_escape = 0.
 Proof. exact w_escape_agrees. Qed.
 Print Assumptions C08_refutation_witness_is_ropes_run.
+
+
+(* ---------------------------------------------------------------------------------------------------------------
+   Regions are exact.  [template_of] is the template table of the _<NodeType> methods transcribed for a core of
+   the syntax (Fragment.v; compared on every run with the templates captured from the walker, Runner.template_ok).
+   For the expression core  name | e.attr | f(args) | l op r  printed with ARBITRARY layout between any two tokens
+   (blanks, newlines, comments containing anything: brackets, quotes, keywords, the token searched for), inside a
+   module  layout expr layout : annotation succeeds and yields exactly [annot_module]: every node's region is the
+   extent of its own text without any surrounding layout (= CPython's span: no parentheses occur in this core),
+   its sorted_children are its tokens, its children and the layout between them.  Holds for every version [o]. *)
+Theorem C08_exact_fragment :
+  forall (o : options) (t0 : trivia) (c : cexpr) (t1 : trivia),
+    trivia_ok t0 = true -> cexpr_ok c = true -> trivia_ok t1 = true ->
+    patch_opt o (render_module t0 c t1) (template_of (ast_module c)) = Ok (annot_module t0 c t1).
+Proof. exact exact_module. Qed.
+Print Assumptions C08_exact_fragment.
+
+(* what [annot] says about regions, spelled out: start, end, and the region text is the construct's own text *)
+Theorem C08_exact_fragment_regions :
+  forall (c : cexpr) (entry start : N),
+    p_rs (annot entry start c) = start /\
+    p_re (annot entry start c) = start + lenN (rend c) /\
+    write (annot entry start c) = rend c.
+Proof. exact annot_region. Qed.
+Print Assumptions C08_exact_fragment_regions.
+
+(* The key lemma (_good_token / _skip_comment are right): a token that starts with a visible character other
+   than '#' and is preceded by layout only is found exactly where it is, whatever the comments contain. *)
+Theorem C08_token_found_behind_layout :
+  forall (tr : trivia) (tok X : text) (off : N),
+    trivia_ok tr = true -> tok_ok tok = true ->
+    consume tok (mkcur off (render_tr tr ++ tok ++ X))
+    = Ok (off + lenN (render_tr tr), off + lenN (render_tr tr) + lenN tok,
+          mkcur (off + lenN (render_tr tr) + lenN tok) X).
+Proof. exact consume_trivia. Qed.
+Print Assumptions C08_token_found_behind_layout.
+
+(* Non-vacuity, and the tie to the code: for the text
+       # top (
+       f ( a . b # c )
+         , x ) + y  # end
+   the hypotheses hold, the text is [render_module] of a concrete tree, CPython's ast of it is [ast_module] of
+   that tree, and what rope computed on it (captured) is literally [annot_module] of it. *)
+Example C08_exact_fragment_witness_is_ropes_run :
+  trivia_ok frag_t0 = true /\ cexpr_ok frag_c = true /\ trivia_ok frag_t1 = true /\
+  render_module frag_t0 frag_c frag_t1 = k_src w_frag /\
+  k_ast w_frag = Some (ast_module frag_c) /\
+  k_rope w_frag = Ok (annot_module frag_t0 frag_c frag_t1) /\
+  run_case w_frag = 0.
+Proof. exact frag_is_ropes_run. Qed.
+Print Assumptions C08_exact_fragment_witness_is_ropes_run.
